@@ -19,8 +19,10 @@ model = {
                           "s": int,                         # style index, -1 = attribute absent
                           "f": {"k": "none" | "normal" | "shared" | "array",
                                 "si": int, "ht": bool, "text": str, "ref": str}} ],
-              "links": [ {"r": int, "c": int, "ext": bool, "val": str} ],   # ext: r:id -> relationship Target (External)
-                                                                             # else location= attribute
+              "links": [ {"r": int, "c": int, "ext": bool, "val": str,     # ext: r:id -> relationship with Target val (External)
+                          "hasloc": bool, "loc": str,                        # location= attribute (alone, or with r:id: a fragment)
+                          "tip": str, "disp": str} ],                        # tooltip= / display= attributes ("" = absent)
+                                                                             # (old form: ext False and val = the location)
               "tcols": [str] } ],                          # column names of one table (header cells are not added)
  "sst":   [ {"rich": bool, "runs": [str]} ],               # shared string items (plain: one run)
  "xfs":   [ int ],                                          # cellXfs: numFmtId per xf (xf 0 is the default format)
@@ -171,10 +173,17 @@ def sheet_xml(sh, opts, link_rids, table_rid):
         out.append("<hyperlinks>")
         for i, h in enumerate(sh["links"]):
             ref = "%s%d" % (colname(h["c"]), h["r"])
+            a = ['ref="%s"' % ref]
             if h["ext"]:
-                out.append('<hyperlink ref="%s" r:id="%s"/>' % (ref, link_rids[i]))
-            else:
-                out.append('<hyperlink ref="%s" location="%s"/>' % (ref, esc(h["val"], opts["ent"], True)))
+                a.append('r:id="%s"' % link_rids[i])
+            hasloc = h.get("hasloc", not h["ext"])
+            if hasloc:
+                a.append('location="%s"' % esc(h.get("loc", h["val"]) if "loc" in h else h["val"], opts["ent"], True))
+            if h.get("tip"):
+                a.append('tooltip="%s"' % esc(h["tip"], opts["ent"], True))
+            if h.get("disp"):
+                a.append('display="%s"' % esc(h["disp"], opts["ent"], True))
+            out.append("<hyperlink %s/>" % " ".join(a))
         out.append("</hyperlinks>")
     out.append('<pageMargins left="0.7" right="0.7" top="0.75" bottom="0.75" header="0.3" footer="0.3"/>')
     if table_rid:
